@@ -45,6 +45,8 @@ pub fn run(ctx: &mut Ctx) {
             2 => 2,
             3 => 255 + crng.below(4) as usize,
             // beyond one block of any plausible chunked parallel pass (4096), never a multiple of it
+            // beyond 16 bits of entry index (one such store per run)
+            4 if case == 12 => 65536 + crng.below(3000) as usize,
             4 => if ctx.quick() { 4097 + crng.below(1500) as usize } else { *crng.pick(&[4097usize, 5000, 8191, 8193, 10000, 12289]) + crng.below(3) as usize },
             5 => 65 + crng.below(300) as usize,
             _ => crng.below(60) as usize,
